@@ -36,4 +36,36 @@ theorem ensure_modifiable_tie (s : St) (hd : DataOk s.hp) :
                 hr_is_unique_some rf st hp a l _ hg, hr_as_str_some rf st hp a l _ hg]
         · rt_step [hg, h1, h3, resOf, hr_is_unique_some rf st hp a l _ hg, hr_as_str_some rf st hp a l _ hg]
 
+/-- the same tie in the form a caller rewrites with -/
+theorem ensure_modifiable_norm {ρ' : Type} (s : St) (hd : DataOk s.hp) :
+    (norm (GenRepr.Repr.ensure_modifiable s) : Step ρ' (Rs Unit)) = stepOfRes s.rf s.st (ensureModifiable s.rf s.st s.hp s.self) := by
+  rcases s with ⟨rf, st, hp, r⟩
+  unfold GenRepr.Repr.ensure_modifiable ensureModifiable
+  cases r with
+  | inl raw => rt_step [norm, stepOfRes]
+  | stat i l =>
+    cases ht : textOf hp st (.stat i l) with
+    | error u => rt_step [ht, norm, stepOfRes]
+    | ok t =>
+      rcases hf : fromStr rf hp t with ⟨o, hp1⟩
+      cases o with
+      | none => rt_step [ht, from_str_step, hf, norm, stepOfRes]
+      | some r' => rt_step [ht, from_str_step, hf, replace_inner_step, releaseRepr, norm, stepOfRes]
+  | heap a l =>
+    cases hg : hp.get? a with
+    | none => rt_step [hg, norm, stepOfRes, hr_is_unique_none rf st hp a l _ hg]
+    | some b =>
+      by_cases h1 : b.rc = 1
+      · rt_step [hg, h1, norm, stepOfRes, hr_is_unique_some rf st hp a l _ hg]
+      · by_cases h3 : l ≤ b.cap
+        · rcases hw : heapNew rf hp (b.data.take l) with ⟨o, hp1⟩
+          cases o with
+          | none => rt_step [hg, h1, h3, hw, moveTo, norm, stepOfRes, hr_is_unique_some rf st hp a l _ hg, hr_as_str_some rf st hp a l _ hg]
+          | some a' =>
+            cases hrl : releaseRepr hp1 (.heap a l) <;>
+              rt_step [hg, h1, h3, hw, moveTo, take_len_block hd hg h3, replace_inner_step, hrl, norm, stepOfRes,
+                hr_is_unique_some rf st hp a l _ hg, hr_as_str_some rf st hp a l _ hg]
+        · rt_step [hg, h1, h3, norm, stepOfRes, hr_is_unique_some rf st hp a l _ hg, hr_as_str_some rf st hp a l _ hg]
+
+
 end LS.GenTie
